@@ -6,6 +6,7 @@ CONSTANTS
   ModSeq <- Mods5
   MaxOut = 2
   GenRot = FALSE
+  GenBack = "first"
   MaxCtr = 1
   LoadCap = 2
   MaxReq = 4
